@@ -351,14 +351,20 @@ void COTmrProcess(CO_TMR *tmr)
     while (tmr->Elapsed != 0) {
         COTmrLock();
         tn            = tmr->Elapsed;
-        tmr->Elapsed  = tn->Next;
 
+        /* fetch the first action, only: the waiting actions must stay
+         * reachable for COTmrDelete() while the callback is running
+         */
         act           = tn->Action;
-        tn->Action    = 0;
-        tn->ActionEnd = 0;
-        tn->Delta     = 0;
-        tn->Next      = tmr->Free;
-        tmr->Free     = tn;
+        tn->Action    = act->Next;
+        act->Next     = 0;
+        if (tn->Action == 0) {
+            tmr->Elapsed  = tn->Next;
+            tn->ActionEnd = 0;
+            tn->Delta     = 0;
+            tn->Next      = tmr->Free;
+            tmr->Free     = tn;
+        }
         COTmrUnlock();
 
         /* loop through all actions of elapsed timer event */
